@@ -419,6 +419,11 @@ func c04Run(env *core.Env, idx int) core.CaseResult {
 	if withIDs {
 		budget = 16*U + 256
 	}
+	if withIDs && idx >= c04Structured(env) {
+		// random worlds with ids: an id that re-scopes the base (../up/) makes the same node appear under a few different bases before the
+		// scopes reach their fixed point, and the oracle's unfolding does not model ids: the design's original, wider bound applies
+		budget = 64*U + 1024
+	}
 	acyclic := in.Acyclic(starts)
 	res.Hash = core.HashOf(w.Docs)
 	if n := w.Features["fault.hollow-document"]; n > 0 {
@@ -525,7 +530,7 @@ func init() {
 		Level: "exploration",
 		Rule: "exhaustive part: every reference graph over n<=2 (quick) / n<=3 (thorough) schema nodes with 2 $ref slots each (target: none, any node, dangling, ill-typed, wrong kind), placed on rotating sub-schema positions, " +
 			"x 7 id variants (sampled for n=3), on 1-2 documents, with parameter/response/path-item variants incl. self-references and cycles not containing the entry; each run through 9 entry points and the 4 SkipSchemas/ContinueOnError combinations; " +
-			"random part: seeded G-WORLD graphs (cycles, chains, faults, ids). Budget = 8*U+64 logical steps (16*U+256 with ids), U = size of the acyclic unfolding. non-trivial = cycle, id or dangling target; distinct by world content",
+			"random part: seeded G-WORLD graphs (cycles, chains, faults, ids). Budget = 8*U+64 logical steps (16*U+256 with ids, 64*U+1024 for random worlds with ids), U = size of the acyclic unfolding. non-trivial = cycle, id or dangling target; distinct by world content",
 		NumCases:      c04NumCases,
 		Run:           c04Run,
 		Floors:        func(env *core.Env) []string { return floors },
